@@ -219,7 +219,7 @@ package pubsub
 //@      p.topics != nil && p.myTopics != nil && p.peerFilter != nil && p.logger != nil && p.val.p == p && p.val.p.logger != nil &&
 //@      (forall t string :: t in p.myTopics ==> p.myTopics[t] != nil) &&
 //@      (forall t string :: t in p.topics ==> p.topics[t] != nil)
-//@ spec fn wfGS(gs *GossipSubRouter) bool = gs.p != nil && wfPubSub(gs.p) && gs.logger != nil && gs.params != nil
+//@ spec fn wfGS(gs *GossipSubRouter) bool = gs.p != nil && wfPubSub(gs.p) && gs.logger != nil && gs.params != nil && gs.control != nil && gs.gossip != nil && gs.p.peers != nil
 
 // ---- the event loop: one event per iteration (per-iteration postconditions) ----
 //
@@ -418,7 +418,7 @@ package pubsub
 //@   property C12
 //@   safe
 //@   requires wf: wfGS(gs) && rpc != nil && gs.extensions != nil && sepMesh(gs) && sepBackoff(gs) && validBackoffParams(gs) && gs.mcache != nil && mcRep(gs.mcache) &&
-//@        gs.peerhave != nil && gs.iasked != nil && gs.peerhave != gs.iasked && gs.params.MaxIHaveLength >= 0 && gs.peerdontwant != nil && gs.unwanted != nil && gs.params.MaxIDontWantLength >= 0 && gs.params.PrunePeers >= 0 && gs.peers != nil
+//@        gs.peerhave != nil && gs.iasked != nil && gs.peerhave != gs.iasked && gs.params.MaxIHaveLength >= 0 && gs.peerdontwant != nil && gs.unwanted != nil && gs.params.MaxIDontWantLength >= 0 && gs.params.PrunePeers >= 0 && gs.peers != nil && gs.p.peers != nil && gs.control != nil && gs.gossip != nil
 //@   requires decoded: rpc.RPC.Control != nil ==> (forall i int :: 0 <= i && i < len(rpc.RPC.Control.Graft) ==> rpc.RPC.Control.Graft[i] != nil) &&
 //@        (forall i int :: 0 <= i && i < len(rpc.RPC.Control.Prune) ==> rpc.RPC.Control.Prune[i] != nil &&
 //@            (forall j int :: 0 <= j && j < len(rpc.RPC.Control.Prune[i].Peers) ==> rpc.RPC.Control.Prune[i].Peers[j] != nil)) &&
